@@ -190,9 +190,13 @@ def make_env(w: World, main):
                 # (residue name, [(atom name, record type, has force-field parameters)])
                 self.name = spec[0]
                 self.atoms = []
+                extra = spec[2] if len(spec) > 2 else {}
+                self.res_seq = extra.get("res_seq", i)
+                self.chain_id = extra.get("chain_id", "A")
                 for k, (an, rt, has_ff) in enumerate(spec[1]):
                     a = FakeAtom(100 * i + k)
                     a.name, a.type, a.has_ff = an, rt, has_ff
+                    a.chain_id, a.res_seq, a.res_name, a.ins_code = self.chain_id, self.res_seq, self.name, ""
                     a.residue = self
                     a.ffcharge = 0.125 if has_ff else None
                     a.radius = 1.5 if has_ff else None
